@@ -119,7 +119,7 @@ template <int S> struct Runner {
 
 template <int S> static void explore(Ctx &c, long &id) {
   const bool th = c.args.thorough();
-  const int Nmax3 = th ? 7 : 5;
+  const int Nmax3 = th ? 8 : 5;
   std::vector<double> sigmas = th ? std::vector<double>{0.125, 1.0, 8.0} : std::vector<double>{1.0};
   for (int N = 1; N <= (th ? 10 : 6); ++N) {
     int base = N <= Nmax3 ? 3 : 2; long nw = ipow(base, N);
